@@ -71,7 +71,7 @@ class Driver(object):
 
     def start(self):
         env = dict(os.environ)
-        env.setdefault('ASAN_OPTIONS', 'detect_leaks=0:abort_on_error=0:allocator_may_return_null=1:detect_stack_use_after_return=0:malloc_context_size=12')
+        env.setdefault('ASAN_OPTIONS', 'detect_leaks=0:abort_on_error=0:allocator_may_return_null=1:detect_stack_use_after_return=0:malloc_context_size=12')  # RSS is bounded by the watchdog in _readn
         env.setdefault('UBSAN_OPTIONS', 'print_stacktrace=1:halt_on_error=1')
         env['XDRV_TMPDIR'] = os.path.join(self.tmpdir, 'files')
         env['LC_ALL'] = 'C'
@@ -96,9 +96,33 @@ class Driver(object):
             self.errf.close()
         shutil.rmtree(self.tmpdir, ignore_errors=True)
 
+    CALL_TIMEOUT = float(os.environ.get("XDRV_CALL_TIMEOUT", "20"))
+    RSS_LIMIT_KB = 1024 * 1024
+
+    def _rss_kb(self):
+        try:
+            with open('/proc/%d/statm' % self.proc.pid) as f:
+                return int(f.read().split()[1]) * 4
+        except Exception:
+            return 0
+
     def _readn(self, n):
+        import select, time
         buf = b''
+        end = time.time() + self.CALL_TIMEOUT
         while len(buf) < n:
+            left = end - time.time()
+            if left <= 0:
+                self.hung = 'no answer within %.0f s' % self.CALL_TIMEOUT
+                self.proc.kill()
+                return None
+            r, _, _ = select.select([self.proc.stdout], [], [], min(left, 0.5))
+            if not r:
+                if self._rss_kb() > self.RSS_LIMIT_KB:
+                    self.hung = 'resident set above %d MB' % (self.RSS_LIMIT_KB // 1024)
+                    self.proc.kill()
+                    return None
+                continue
             c = self.proc.stdout.read(n - len(buf))
             if not c:
                 return None
@@ -156,6 +180,9 @@ class Driver(object):
             self.proc.kill()
             rc = self.proc.wait()
         err = self.stderr_text()
+        if getattr(self, 'hung', None):
+            err += '\nXDRV-HANG: %s\n' % self.hung
+            self.hung = None
         self.proc = None
         self.errf.close()
         self.restarts += 1
@@ -181,6 +208,8 @@ def crash_signature(stderr):
             m2 = re.search(r'([\w./+-]+\.(?:cpp|hpp)):(\d+):\d+: runtime error', stderr)
             if m2:
                 return '%s @%s:%s' % (kind, os.path.basename(m2.group(1)), m2.group(2))
+    if kind is None and 'XDRV-HANG' in stderr:
+        return 'hang-or-runaway-allocation'
     if kind is None:
         if 'terminate called' in stderr or 'terminating' in stderr:
             kind = 'terminate'
